@@ -1405,9 +1405,9 @@ func main() {
 	// handed on before / after the header rewrite, failRelayItem and SendSystemError sites (relayidsites.go)
 	w.Reset()
 	fmt.Fprintf(&w, header, *repo)
-	nri := root.relayIdSitesSafe(&w)
+	nridm := root.relayIdSitesSafe(&w)
 	writeIfChanged(filepath.Join(*out, "GenRelayIdSites.v"), w.Bytes())
-	fmt.Printf("go2v: GenRelayIdSites.v %d id arguments, %d id stores, %d frame hand-overs, %d fail sites, %d SendSystemError sites\n", nri["args"], nri["stores"], nri["frames"], nri["fails"], nri["syserrs"])
+	fmt.Printf("go2v: GenRelayIdSites.v %d id arguments, %d id stores, %d frame hand-overs, %d fail sites, %d SendSystemError sites\n", nridm["args"], nridm["stores"], nridm["frames"], nridm["fails"], nridm["syserrs"])
 
 	// GenWaitSites.v (C05): blocking statements of the outbound call path (waitsites.go)
 	w.Reset()
